@@ -98,8 +98,10 @@ Definition hitem : Type :=
   ((lres * list titem)
    + (result (Z * list (Z * (list Z * Z * Z * list Z) * Z * Z)) * list titem))%type.
 
-(* Statement by statement: the report of a load is that of load_routing_table_entries on the machine as
-   the earlier statements left it; every command it issued went to the chip the statement names; the first
+(* Statement by statement.  BOOKKEEPING (true by definition of run_history, they only say which call each
+   report belongs to and on which machine state it was made): `res = fst (fst r)`, `tr = snd r`,
+   `(g, tr) = readback_digest ...`.  CONTENT: the report of a load is that of load_routing_table_entries on
+   the machine as the earlier statements left it; every command it issued went to the chip the statement names; the first
    one, if any, is the allocation for the application the statement names and for as many entries as
    given; a load that does not succeed leaves the router entries of EVERY chip as they were; a read-back
    issues commands to the chip it names only and changes nothing. *)
